@@ -109,7 +109,39 @@ func NewBranchDispatcher(re *syntax.Regexp) *BranchDispatcher {
 
 // buildBranchMatcher creates an optimized matcher for a single branch.
 //
+// isFullySupportedBranch reports whether buildBranchMatcher implements the
+// branch exactly (not just a prefix of it).
+//
 //nolint:gocognit // Pattern matching naturally has high branching factor
+func isFullySupportedBranch(re *syntax.Regexp) bool {
+	if re.Op == syntax.OpCapture && len(re.Sub) == 1 {
+		re = re.Sub[0]
+	}
+	switch re.Op {
+	case syntax.OpLiteral:
+		if re.Flags&syntax.FoldCase != 0 || len(re.Rune) == 0 {
+			return false
+		}
+		for _, r := range re.Rune {
+			if r > 127 {
+				return false
+			}
+		}
+		return true
+	case syntax.OpPlus:
+		if re.Flags&syntax.NonGreedy != 0 || len(re.Sub) != 1 || re.Sub[0].Op != syntax.OpCharClass {
+			return false
+		}
+		for _, r := range re.Sub[0].Rune {
+			if r > 127 {
+				return false
+			}
+		}
+		return true
+	}
+	return false
+}
+
 func buildBranchMatcher(re *syntax.Regexp) branchMatcher {
 	var m branchMatcher
 
@@ -290,13 +322,15 @@ func IsBranchDispatchPattern(re *syntax.Regexp) bool {
 		return false
 	}
 
-	// Must be concatenation starting with ^ anchor
-	if re.Op != syntax.OpConcat || len(re.Sub) < 2 {
+	// Must be exactly: start anchor followed by the alternation. Anything after
+	// the alternation (e.g. ^(a|b)c) is not looked at by the dispatcher.
+	if re.Op != syntax.OpConcat || len(re.Sub) != 2 {
 		return false
 	}
 
-	// First element must be start anchor
-	if re.Sub[0].Op != syntax.OpBeginLine && re.Sub[0].Op != syntax.OpBeginText {
+	// First element must be the text-start anchor. A multiline ^ also matches
+	// after every newline, but the dispatcher only tries position 0.
+	if re.Sub[0].Op != syntax.OpBeginText {
 		return false
 	}
 
@@ -308,6 +342,15 @@ func IsBranchDispatchPattern(re *syntax.Regexp) bool {
 			inner = sub.Sub[0]
 		}
 		if inner.Op == syntax.OpAlternate {
+			// The branch matchers implement exactly two branch shapes: an ASCII
+			// literal and a greedy repetition (one or more) of an ASCII class.
+			// Any other branch is only approximated (first byte / leading
+			// literal), so such patterns are left to the general engines.
+			for _, branch := range inner.Sub {
+				if !isFullySupportedBranch(branch) {
+					return false
+				}
+			}
 			// Try to build dispatcher - if it succeeds, pattern is suitable
 			dispatcher := NewBranchDispatcher(sub)
 			return dispatcher != nil
